@@ -101,6 +101,13 @@ CLAIMS = {
          "fail-k-then-succeed) observed at the origin and compared with the model tick by tick.",
          "Coq proof over the tick/stamp model + real-ticker correspondence", "DESIGN.md §3 C15",
          "wall-clock time, time.Ticker and goroutine scheduling are runtime behaviour: the model is discrete-time, the harness allows 25% scheduling slack; 'configured CRLs are in force when provisioning returns' is exercised by the C16/C19 harnesses, not stated as a theorem."),
+ "C20": ("Coq theorems with name patterns generated from the source: C20_store_name (for every location string the store directory is 64 "
+         "characters of [0-9a-f] — no separator, dot or underscore), C20_store_not_swept, C20_temps_swept, C20_patterns, C20_intake_clean "
+         "(after an intake with any outcome no temp artefact remains and no live directory is lost), C20_cleanup_stops_ticker; a sandbox diff "
+         "around a real validator fed 18 hostile locations, restart, start-up sweep with look-alike foreign names, provision/cleanup cycles "
+         "with goroutine counting.",
+         "Coq proof over naming/sweep/intake file-system model + sandbox-diff correspondence", "DESIGN.md §3 C20",
+         "the real file system, database handles and goroutines are runtime objects: exercised (directory diff, LOCK reuse, goroutine count), not proved; failures inside the directory swap are outside the modelled outcomes."),
  "C03": ("Coq theorems C03_table/C03_enabled/C03_iff/C03_effects over a model whose mode table, enable predicates and "
          "VerifyClientCertificate stage list are regenerated from the Go source on every run; plus an exhaustive 1536-cell "
          "table of real handshakes evaluated against the model (vm_compute) and against the property's own wording.",
